@@ -34,6 +34,9 @@ type vfC21Case struct {
 	Stage   int           `json:"stage"` // 0 fresh .. 5 data flowing
 	HoldOps bool          `json:"hold_ops"`
 	Closers []vfC21Closer `json:"closers"`
+	// Sequential: closers are started one after another (each after the system settled) instead of
+	// all at once; with hold_ops the worker stays parked until all of them were started.
+	Sequential bool `json:"sequential"`
 }
 
 // vfC21PionGoroutines returns id -> stack of goroutines that run pion code and are not harness goroutines.
@@ -100,6 +103,9 @@ func vfC21Run(v *vfT, c vfC21Case) {
 		}
 	}()
 
+	if c.HoldOps {
+		gates.Watch(pcA.ops)
+	}
 	var track *TrackLocalStaticSample
 	var dc *DataChannel
 	var sender *RTPSender
@@ -116,9 +122,6 @@ func vfC21Run(v *vfT, c vfC21Case) {
 		if dc, err = pcA.CreateDataChannel("c21", nil); err != nil {
 			v.Skip("CreateDataChannel: " + err.Error())
 		}
-	}
-	if c.HoldOps {
-		gates.Watch(pcA.ops)
 	}
 	if c.Stage == 2 {
 		offer, err := pcA.CreateOffer(nil)
@@ -190,30 +193,58 @@ func vfC21Run(v *vfT, c vfC21Case) {
 	actors := vfNewActors()
 	start := make(chan struct{})
 	anyGraceful := false
+	var retMu sync.Mutex
+	var earlyReturn []string
+	opsQuiet := func() bool {
+		pcA.ops.mu.Lock()
+		defer pcA.ops.mu.Unlock()
+		return pcA.ops.busyCh == nil && pcA.ops.ops.Len() == 0
+	}
 	for i, cl := range c.Closers {
 		i, cl := i, cl
 		if cl.Graceful {
 			anyGraceful = true
 		}
 		actors.Go(fmt.Sprintf("closer%d", i), func() {
-			<-start
+			if !c.Sequential {
+				<-start
+			}
 			for k := 0; k < cl.Yields; k++ {
 				runtime.Gosched()
 			}
 			if cl.Graceful {
 				_ = pcA.GracefulClose()
+				// once GracefulClose returns nothing the connection started may still be running:
+				// the operations worker is the part we can identify positively while a peer is alive
+				if !opsQuiet() {
+					retMu.Lock()
+					earlyReturn = append(earlyReturn, fmt.Sprintf("closer%d", i))
+					retMu.Unlock()
+				}
 			} else {
 				_ = pcA.Close()
 			}
 		})
+		if c.Sequential {
+			vfSettle(gates, actors)
+		}
 	}
 	close(start)
 	if c.HoldOps {
 		vfSettle(gates, actors)
+		if len(gates.Parked()) > 0 {
+			v.Label("closers-started-while-worker-held")
+		}
 		gates.OpenAll()
 	}
 	if ok, dump := vfWaitActors(actors, 30*time.Second); !ok {
 		v.Violation("C21/close-hangs", "Close/GracefulClose callers did not return within 30s (stage %d, hold_ops=%v): %s", c.Stage, c.HoldOps, dump)
+	}
+	retMu.Lock()
+	er := append([]string{}, earlyReturn...)
+	retMu.Unlock()
+	if len(er) > 0 {
+		v.Violation("C21/graceful-returned-while-ops-running", "GracefulClose (%v) returned while the connection's operations worker was still running or had queued work (stage %d, hold_ops=%v, sequential=%v, closers %+v)", er, c.Stage, c.HoldOps, c.Sequential, c.Closers)
 	}
 	close(stopSend)
 	sendWG.Wait()
@@ -350,7 +381,8 @@ func TestVerif_C21(t *testing.T) {
 			"a pair that cannot reach the requested stage within its watchdog is discarded as inconclusive"},
 	}, func(v *vfT) vfC21Case {
 		c := vfC21Case{Stage: rapid.IntRange(0, 5).Draw(v.R, "stage")}
-		c.HoldOps = c.Stage >= 2 && c.Stage <= 3 && rapid.Bool().Draw(v.R, "hold")
+		c.HoldOps = c.Stage >= 1 && c.Stage <= 3 && rapid.Bool().Draw(v.R, "hold")
+		c.Sequential = rapid.Bool().Draw(v.R, "sequential")
 		n := rapid.IntRange(1, 4).Draw(v.R, "closers")
 		for i := 0; i < n; i++ {
 			c.Closers = append(c.Closers, vfC21Closer{Graceful: rapid.Bool().Draw(v.R, "graceful"), Yields: rapid.SampledFrom([]int{0, 0, 1, 3, 10, 50}).Draw(v.R, "yields")})
